@@ -26,6 +26,12 @@ let () =
           | "spec_month_len" ->
             let iv = List.map int_of_string args in
             Zconv.zs (Model.month_len (Model.is_leap (Zconv.z_of_int (List.nth iv 0))) (Zconv.z_of_int (List.nth iv 1)))
+          | "spec_fold" ->
+            let intl = int_of_string (List.nth args 0) <> 0 and name = Zconv.bytes_of_hex (List.nth args 1) in
+            Zconv.hex_of_bytes (List.map Zconv.int_of_z (Model.fold_name intl (Model.trunc30 (Zconv.zlist_of_ints name))))
+          | "spec_hash" ->
+            let intl = int_of_string (List.nth args 0) <> 0 and name = Zconv.bytes_of_hex (List.nth args 1) in
+            Zconv.zs (Model.hash_name intl (Model.trunc30 (Zconv.zlist_of_ints name)))
           | "adfGiveCurrentTime" -> "skip"
           | "bitidx" -> "skip"
           | _ ->
